@@ -549,3 +549,15 @@ CHECKS["C01"]["level_text"] += (" Unit 'e2e' runs the complete applications over
 CHECKS["C12"]["level_text"] += (" Unit 'e2e' uses the real binaries: `thru host --max-receivers M` (M = 1, 2) serves M+1 or M+2 receivers that "
                                 "join almost together while a 12-40 MiB file keeps the transfers overlapping; the host's own status lines must never "
                                 "show more than M active transfers and every `thru join` must exit 0 with exactly the hosted tree.")
+CHECKS["C09"]["level_note"] = ("quic-go internals are not scheduled by the harness. The accept side lives in snapshotReceiver.runTransfer (ends in os.Exit) "
+                               "and is decided through the real binaries only (unit 'e2e'), which is non-trivial only on a host with at least two usable "
+                               "local addresses; relay (TURN) candidates are not exercised end to end.")
+CHECKS["C14"]["level_note"] = ("The collision-retry loop of the store is reached by scripting crypto/rand.Reader in the in-process store unit only (the server "
+                               "binary runs with real randomness); lifetime verdicts have a +-0.5 s blind zone; per-IP rate limits are exercised from one "
+                               "loopback address.")
+CHECKS["C12"]["level_note"] = ("In the white-box units the real transfer function is stubbed (the property is about admission), emitted envelopes are not "
+                               "captured and state is read under the sender's mutex; the 'e2e' unit runs the real binaries but only join-together "
+                               "scenarios (no leave/re-join), and reads the host's status lines.")
+CHECKS["C04"]["level_note"] = ("SIGKILL keeps the page cache: this decides process death, not power loss. The child-process units are complete at hook "
+                               "granularity only; the 'e2e' unit kills the real `thru join` at a random instant. The thorough tier additionally lets one data "
+                               "stream end in mid-frame while the others go on. Trusted: the harness's wire decoder and the production LoadSidecar used for inspection.")
